@@ -227,6 +227,16 @@ func (n *Net) forward(ctx context.Context, addr string, req *tikvrpc.Request, ti
 			resp, err = nil, errors.Errorf("verif: back-end panic: %v", p)
 		}
 	}()
+	if n.u.Backend == Uni {
+		// unistore computes an async-commit / 1PC prewrite's min_commit_ts from a fresh timestamp *before* it
+		// writes the locks and has no in-memory lock table (a TODO in its source): a reader whose start ts is
+		// issued inside that window reads below a commit that lands under its ts.  TiKV closes the window with its
+		// concurrency manager; the harness closes it by not issuing timestamps while such a prewrite executes.
+		if p, ok := req.Req.(*kvrpcpb.PrewriteRequest); ok && (p.UseAsyncCommit || p.TryOnePc) {
+			n.u.asyncGuard.Lock()
+			defer n.u.asyncGuard.Unlock()
+		}
+	}
 	return n.inner.SendRequest(ctx, addr, req, timeout)
 }
 
